@@ -286,6 +286,10 @@ func NewReporter(opts Options) (Reporter, error) {
 		tagCache:        cache.NewTagCache(),
 	}
 
+	// n.b. The clock goroutine started below may not have run yet when the
+	//      first value is reported.
+	r.now.Store(time.Now().UnixNano())
+
 	internalTags := map[string]string{
 		"version":  tally.Version,
 		"host":     tally.DefaultTagRedactValue,
